@@ -45,14 +45,14 @@ def feq (a b : α) : Bool := decide (a ≤ b) && decide (b ≤ a)
 
 /-- `validation.check_epsilon_delta` on numeric arguments (non-numeric ones are C13's business) -/
 def checkEpsDelta (e d : α) (allowZero : Bool := false) : Except Err Unit :=
-  if e < 0 then .error .valueError
+  if !decide (0 ≤ e) then .error .valueError          -- `if not epsilon >= 0` (refuses NaN)
   else if !(decide (0 ≤ d) && decide (d ≤ 1)) then .error .valueError
   else if !allowZero && feq (e + d) 0 then .error .valueError
   else .ok ()
 
 /-- `Budget.__new__` -/
 def mkBudget (e d : α) : Except Err (Tot α) :=
-  if e < 0 then .error .valueError
+  if !decide (0 ≤ e) then .error .valueError
   else if !(decide (0 ≤ d) && decide (d ≤ 1)) then .error .valueError
   else .ok ⟨e, d⟩
 
